@@ -156,3 +156,56 @@ pub fn twin() {
     vcheck!(ob.is_none(), "twin:reachable");
     std::mem::forget((da, ob, a, b));
 }
+
+// ---------------------------------------------------------------------------------------------------------------
+// the glue: what a replica SERVES equals what its replication state SAYS, after remote deltas went through
+// ReplicatedShardActor::apply_remote_delta_impl (S11 extraction under Kani with a recording executor; natively the
+// real actor and the real executor)
+fn reg_byte(l: Option<&LwwRegister<SDS>>) -> Option<u8> { l.and_then(|r| r.get()).map(|s| if s.as_bytes().len() > 0 { s.as_bytes()[0] } else { 0 }) }
+fn hash_rv(f: Option<LwwRegister<SDS>>, g: Option<LwwRegister<SDS>>, ts: LamportClock) -> ReplicatedValue {
+    let mut h = crate::coll::HashMap::new();
+    if let Some(l) = f { h.insert("f".to_string(), l); }
+    if let Some(l) = g { h.insert("g".to_string(), l); }
+    ReplicatedValue { crdt: CrdtValue::Hash(h), vector_clock: None, expiry_ms: None, timestamp: ts, replication_factor: None }
+}
+fn reg1(b: u8, tomb: bool, ts: LamportClock) -> LwwRegister<SDS> { LwwRegister { value: if tomb { None } else { Some(sds1(b)) }, timestamp: ts, tombstone: tomb } }
+
+/// two hash deltas of key "k" applied one after the other: first {f: r1}, then {f: r2 [, g: r3]} (registers = symbolic
+/// one-byte values or tombstones with symbolic stamps, in any stamp order: late, duplicated and superseded deliveries
+/// included). Afterwards the executor must serve for f and g exactly the live value the replication state holds.
+pub fn glue_hash(with_g: bool) {
+    let (s1, s2, s3) = (any_clock(), any_clock(), any_clock());
+    let (b1, b2, b3) = (vs::u8(), vs::u8(), vs::u8());
+    let (t1, t2, t3) = (vs::bool(), vs::bool(), vs::bool());
+    vs::assume(b1 != 0 && b2 != 0 && b3 != 0);
+    if s1 == s2 { vs::assume(b1 == b2 && t1 == t2); }
+    let first = hash_rv(Some(reg1(b1, t1, s1)), None, s1);
+    let outer2 = if with_g && s3 > s2 { s3 } else { s2 };
+    let second = hash_rv(Some(reg1(b2, t2, s2)), if with_g { Some(reg1(b3, t3, s3)) } else { None }, outer2);
+    let has_first = vs::bool();
+    let (state, sv, fv, gv, other) = crate::env::glue_apply(if has_first { Some(first) } else { None }, second);
+    let (want_f, want_g) = match &state {
+        Some(v) => (reg_byte(v.get_hash().and_then(|h| h.get("f"))), reg_byte(v.get_hash().and_then(|h| h.get("g")))),
+        None => (None, None),
+    };
+    vcheck!(state.is_some(), "glue:the key is missing from the replication state after a delta was applied");
+    vcheck!(fv == want_f, "glue:hash field served by the executor differs from the replication state (field of both deltas)");
+    vcheck!(gv == want_g, "glue:hash field served by the executor differs from the replication state (field of the second delta)");
+    vcheck!(sv.is_none() && !other, "glue:the executor was asked for something other than HSET/HDEL of the delta's fields");
+    std::mem::forget(state);
+}
+
+/// two LWW deltas of key "k" (symbolic stamps, values or tombstones): afterwards GET serves what the state says
+pub fn glue_lww() {
+    let (s1, s2) = (any_clock(), any_clock());
+    let (b1, b2) = (vs::u8(), vs::u8());
+    let (t1, t2) = (vs::bool(), vs::bool());
+    vs::assume(b1 != 0 && b2 != 0);
+    if s1 == s2 { vs::assume(b1 == b2 && t1 == t2); }
+    let has_first = vs::bool();
+    let (state, sv, fv, gv, other) = crate::env::glue_apply(if has_first { Some(lww_value(b1, t1, s1)) } else { None }, lww_value(b2, t2, s2));
+    let want = match &state { Some(v) => v.get().map(|s| s.as_bytes()[0]), None => None };
+    vcheck!(sv == want, "glue:string value served by the executor differs from the replication state");
+    vcheck!(fv.is_none() && gv.is_none() && !other, "glue:the executor was asked for something other than SET/DEL of the key");
+    std::mem::forget(state);
+}
